@@ -68,9 +68,31 @@ Section SVal.
   | SCallM (m : string) (v : sval)                (* v.m() *)
   | SNew (cls : string) (kw : list (string * sval))   (* cls(k=v, ...) *)
   | SClosure (name : string) (captured : list sval)   (* an inner def closing over a list *)
-  | SIdx (k : nat) (v : sval).                    (* the k-th component of a tuple-valued v *)
+  | SIdx (k : nat) (v : sval)                     (* the k-th component of a tuple-valued v *)
+  | SNoneV | SStr (s : string)                    (* None, a string literal *)
+  | SName (n : string)                            (* a parameter or a name imported in the function *)
+  | SNewP (cls : string) (pos : list sval) (kw : list (string * sval)).   (* cls(p, ..., k=v, ...) *)
   Inductive sevent := SCall (target : string) (pos : list sval) (kw : list (string * sval)).
+
+  (* a function that tests its settings and makes calls: inner nodes are the tests, leaves the calls
+     made on that path (TDie: the path ends in die(...)) *)
+  Inductive stree :=
+  | TDone (calls : list sevent)
+  | TDie (calls : list sevent)
+  | TIfNone (v : sval) (yes no : stree)           (* `v is None` *)
+  | TIfEq (v : sval) (lit : string) (yes no : stree).   (* `v == "lit"` *)
+
+  (* running it under a valuation of the tests: (completed normally?, the calls made) *)
+  Fixpoint run_tree (is_none : sval -> bool) (eq_lit : sval -> string -> bool) (t : stree) : bool * list sevent :=
+    match t with
+    | TDone c => (true, c)
+    | TDie c => (false, c)
+    | TIfNone v y n => if is_none v then run_tree is_none eq_lit y else run_tree is_none eq_lit n
+    | TIfEq v l y n => if eq_lit v l then run_tree is_none eq_lit y else run_tree is_none eq_lit n
+    end.
 End SVal.
 Arguments SZ {image}. Arguments SOptZ {image}. Arguments SB {image}. Arguments SImg {image}.
 Arguments SAttr {image}. Arguments SCallM {image}. Arguments SNew {image}. Arguments SClosure {image}.
-Arguments SIdx {image}. Arguments SCall {image}.
+Arguments SIdx {image}. Arguments SCall {image}. Arguments SNoneV {image}. Arguments SStr {image}.
+Arguments SName {image}. Arguments SNewP {image}. Arguments TDone {image}. Arguments TDie {image}.
+Arguments TIfNone {image}. Arguments TIfEq {image}. Arguments run_tree {image}.
